@@ -270,8 +270,20 @@ func GenStructType(t *rapid.T, p Profile, depth int) *Type {
 		}
 		used[name] = true
 		f := Field{Name: name, T: GenType(t, p, depth-1)}
+		embedded := false
+		if p.Hidden && depth > 0 && f.Exported() && rapid.IntRange(0, 5).Draw(t, "embed") == 0 {
+			// an embedded struct: its promoted fields must not become reachable by their own names
+			// (reflect.StructOf cannot build unexported embedded fields, so only exported ones are generated)
+			f.T = GenStructType(t, p, depth-1)
+			f.Embedded = true
+			embedded = true
+		}
 		var tags []string
-		switch rapid.IntRange(0, 9).Draw(t, "tagc") {
+		tagc := rapid.IntRange(0, 9).Draw(t, "tagc")
+		if embedded && tagc > 4 {
+			tagc = 2 // hidden embedded structs are the interesting case
+		}
+		switch tagc {
 		case 0, 1:
 			tags = append(tags, fmt.Sprintf(`bexpr:"%s"`, pick(t, tagNames, "tn")))
 		case 2:
